@@ -71,7 +71,7 @@ def discover():
             name = None
             sub = ""
             for j in range(i + 1, min(i + 14, len(lines))):
-                m2 = re.match(r"\s*(?:pub )?(?:unsafe )?fn\s+(\w+)\s*\(", lines[j])
+                m2 = re.search(r"\bfn\s+(\w+)\s*\(", lines[j]) or re.match(r"\s*\w+!\(\s*(\w+)\s*,", lines[j])
                 if m2:
                     name = m2.group(1)
                     break
@@ -84,7 +84,7 @@ def discover():
                 "props": meta.get("props", "").split(","), "tier": meta.get("tier", "quick"),
                 "bound": meta.get("bound", ""), "timeout": int(meta.get("timeout", "300")),
                 "native": meta.get("native", "no") == "yes", "stubs": meta.get("stubs", ""),
-                "expect": meta.get("expect", "pass"), "line": i + 1,
+                "expect": meta.get("expect", "pass"), "line": i + 1, "reach": meta.get("reach", "on"), "thorough_for": meta.get("thorough_for", "").split(","),
             })
     names = [h["name"] for h in out]
     dup = {n for n in names if names.count(n) > 1}
@@ -115,18 +115,52 @@ def env_for():
     return e
 
 
-def run_group(slot, pkg, hs, mem_kb, log_path, extra=()):
-    """One cargo-kani process verifying the harnesses `hs` sequentially in its own target dir."""
+def run_group(slot, pkg, hs, mem_kb, log_path, extra=(), jobs=1):
+    """One cargo-kani process (own target dir) verifying the harnesses `hs`; with jobs>1 Kani verifies
+    them in parallel after a single compilation and writes one result file per harness."""
     tmo = max(h["timeout"] for h in hs)
+    extra = list(extra)
+    if hs[0].get("reach") == "off":
+        extra += ["--no-assertion-reach-checks"]
+    outdir = os.path.join(slot_dir(slot), "result_output_dir")
+    parallel = jobs > 1 and len(hs) > 1
+    if parallel:
+        shutil.rmtree(outdir, ignore_errors=True)
+        extra += ["-j", str(min(jobs, len(hs))), "--output-format", "terse", "--output-into-files"]
     cmd = kani_cmd(pkg, slot_dir(slot), [h["fq"] for h in hs], tmo, extra)
-    total = sum(h["timeout"] for h in hs) + 240
+    waves = (len(hs) + max(1, min(jobs, len(hs))) - 1) // max(1, min(jobs, len(hs)))
+    total = tmo * waves + 300
     sh = f"ulimit -v {mem_kb}; exec timeout {total} " + " ".join(map(shquote, cmd))
     t0 = time.time()
     with open(log_path, "w") as lf:
         p = subprocess.run(["bash", "-c", sh], cwd=REPO, env=env_for(), stdout=lf, stderr=subprocess.STDOUT)
     wall = time.time() - t0
     text = open(log_path, errors="replace").read()
-    res = parse_output(text, hs)
+    if parallel:
+        # stitch the per-harness files into the format parse_output understands
+        pre = text.split("Thread ", 1)[0]
+        parts = [pre]
+        for h in hs:
+            f = os.path.join(outdir, h["fq"])
+            if os.path.exists(f):
+                body = open(f, errors="replace").read()
+                parts.append(f"Checking harness {h['fq']}...\n" + body)
+        # thread-level notes (timeouts are reported on stdout only)
+        stitched = "\n".join(parts)
+        with open(log_path, "w") as lf:
+            lf.write(stitched + "\n==== driver stdout ====\n" + text[-20000:])
+        text_for_parse = stitched
+        res = parse_output(text_for_parse, hs)
+        for h in hs:
+            r = res[h["name"]]
+            if r["status"] in ("NOT_RUN", "ERROR"):
+                m = re.search(r"Thread \d+: Checking harness %s\.\.\.(.*?)(?=Thread \d+: Checking harness|\Z)" % re.escape(h["fq"]), text, flags=re.S)
+                seg = m.group(1) if m else ""
+                if re.search(r"timed out|Timeout", seg) or re.search(r"timed out", text) and h["fq"] in text:
+                    r["status"] = "TIMEOUT"
+                r["detail"] = (seg or text)[-600:]
+    else:
+        res = parse_output(text, hs)
     for h in hs:
         r = res[h["name"]]
         if r["status"] in ("SUCCESS", "FAILED"):
@@ -305,7 +339,7 @@ def replay_violation(prop, h, r, labels, slot=0):
     os.makedirs(REPLAY_DIR, exist_ok=True)
     log = os.path.join(WORK, "logs", f"{h['name']}.playback.log")
     res = run_group(slot, h["pkg"], [h], 24_000_000, log,
-                    extra=["-Z", "concrete-playback", "--concrete-playback=print"])
+                    extra=["-Z", "concrete-playback", "--concrete-playback=print"], jobs=1)
     text = open(log, errors="replace").read()
     test_src = extract_playback(text)
     rec = {"property": prop, "harness": h["name"], "fq": h["fq"], "file": "harness/" + h["file"],
@@ -387,6 +421,7 @@ def write_evidence(prop, tier, seed, hs, results, verdicts, wall, violations, kn
             "cbmc_properties_checked": tot["cbmc_checks"],
             "verification_conditions": tot["vccs"],
             "cover_witnesses_satisfied": tot["covers"],
+            "results_reused_from_same_tree_cache": sum(1 for h in hs if results[h["name"]].get("from_cache")),
             "solver_time_s": round(tot["solver_s"], 2),
             "symex_time_s": round(tot["symex_s"], 2),
             "largest_sat_instance": {"variables": tot["variables_max"], "clauses": tot["clauses_max"]},
@@ -432,6 +467,58 @@ def git_dirty():
 
 
 # ---------------------------------------------------------------------- main
+TIMES = {}
+
+
+def times_get(n):
+    global TIMES
+    if not TIMES:
+        tf = os.path.join(WORK, "times.json")
+        if os.path.exists(tf):
+            try:
+                TIMES.update(json.load(open(tf)))
+            except Exception:
+                pass
+    return TIMES.get(n, 30.0)
+
+
+def tree_hash():
+    """Content hash of everything a verdict depends on: the repository's crates as they are on disk now
+    (tracked or not), the lock file, the harness sources and this driver."""
+    hsh = hashlib.sha256()
+    roots = [os.path.join(REPO, "vhost"), os.path.join(REPO, "vhost-user-backend"), HARNESS_DIR]
+    files = [os.path.join(REPO, "Cargo.toml"), os.path.join(REPO, "Cargo.lock"), os.path.abspath(__file__)]
+    for root in roots:
+        for dp, dn, fn in os.walk(root):
+            dn[:] = sorted(d for d in dn if d not in ("target", ".git"))
+            for f in sorted(fn):
+                files.append(os.path.join(dp, f))
+    for f in files:
+        try:
+            hsh.update(f.encode())
+            hsh.update(open(f, "rb").read())
+        except Exception:
+            pass
+    return hsh.hexdigest()[:20]
+
+
+def load_cache():
+    f = os.path.join(WORK, "result_cache.json")
+    if os.path.exists(f):
+        try:
+            return json.load(open(f))
+        except Exception:
+            return {}
+    return {}
+
+
+def save_cache(cache, tree):
+    # keep only entries of the current tree (the cache exists to share results between the
+    # per-property commands run back to back on one tree, not to remember history)
+    keep = {k: v for k, v in cache.items() if k.startswith(tree + ":")}
+    json.dump(keep, open(os.path.join(WORK, "result_cache.json"), "w"))
+
+
 def load_known():
     if os.path.exists(KNOWN):
         return json.load(open(KNOWN))["findings"]
@@ -466,6 +553,7 @@ def main():
     ap.add_argument("--list", action="store_true")
     ap.add_argument("--setup", action="store_true")
     ap.add_argument("--no-replay", action="store_true")
+    ap.add_argument("--no-cache", action="store_true", default=os.environ.get("VERIF_NO_CACHE") == "1")
     a = ap.parse_args()
     seed = int(os.environ.get("VERIF_SEED", "0"))
     all_h = discover()
@@ -479,43 +567,46 @@ def main():
         ap.error("property id required")
     prop = a.prop
     os.makedirs(os.path.join(WORK, "logs"), exist_ok=True)
-    hs = [h for h in all_h if prop in h["props"] and TIERS[h["tier"]] <= TIERS[a.tier]]
+    hs = [h for h in all_h if prop in h["props"]
+          and TIERS["thorough" if prop in h["thorough_for"] else h["tier"]] <= TIERS[a.tier]]
     if a.harness:
         hs = [h for h in hs if h["name"] in a.harness]
     if not hs:
         print(f"no harness registered for {prop} in tier {a.tier}")
         return 2
     known = [k for k in load_known() if k["property"] == prop]
-    # ---- schedule: longest first into `jobs` groups, one cargo-kani process per group (own target dir)
-    times = {}
-    tf = os.path.join(WORK, "times.json")
-    if os.path.exists(tf):
-        times = json.load(open(tf))
-    groups = {}
-    njobs = max(1, min(a.jobs, len(hs)))
-    load = [0.0] * njobs
-    grp = [[] for _ in range(njobs)]
-    for h in sorted(hs, key=lambda h: -times.get(h["name"], 30.0)):
-        # a slot must stay within one package (different feature sets => different builds)
-        cands = [k for k in range(njobs) if not grp[k] or grp[k][0]["pkg"] == h["pkg"]]
-        k = min(cands, key=lambda k: load[k]) if cands else min(range(njobs), key=lambda k: load[k])
-        grp[k].append(h)
-        load[k] += times.get(h["name"], 30.0) + 2
+    # ---- schedule: one cargo-kani process per (package, reach-check mode); Kani's own -j pool inside
+    keyf = lambda h: (h["pkg"], h["reach"])
+    keys = sorted({keyf(h) for h in hs})
     t0 = time.time()
     results = {}
     mem_kb = a.mem_gb * 1024 * 1024
-    with cf.ThreadPoolExecutor(max_workers=njobs) as ex:
+    cache = load_cache()
+    tree = tree_hash()
+    todo = []
+    reused = 0
+    for h in hs:
+        ck = f"{tree}:{h['fq']}:{h['reach']}:{h['timeout']}"
+        if not a.no_cache and ck in cache and cache[ck]["status"] in ("SUCCESS", "FAILED"):
+            results[h["name"]] = dict(cache[ck], from_cache=True)
+            reused += 1
+        else:
+            todo.append(h)
+    keys = sorted({keyf(h) for h in todo})
+    share = {k: max(1, a.jobs * len([h for h in todo if keyf(h) == k]) // max(1, len(todo))) for k in keys}
+    with cf.ThreadPoolExecutor(max_workers=max(1, len(keys))) as ex:
         futs = []
-        for k, g in enumerate(grp):
-            if not g:
-                continue
-            # split mixed-package groups defensively
-            for pkg in sorted({h["pkg"] for h in g}):
-                sub = [h for h in g if h["pkg"] == pkg]
-                log = os.path.join(WORK, "logs", f"{prop}.{a.tier}.slot{k}.{pkg}.log")
-                futs.append(ex.submit(run_group, k, pkg, sub, mem_kb, log))
+        for slot, k in enumerate(keys):
+            sub = sorted([h for h in todo if keyf(h) == k], key=lambda h: -times_get(h["name"]))
+            log = os.path.join(WORK, "logs", f"{prop}.{a.tier}.{k[0]}.{k[1]}.log")
+            futs.append(ex.submit(run_group, slot, k[0], sub, mem_kb, log, (), share[k]))
         for f in futs:
             results.update(f.result())
+    for h in todo:
+        r = results.get(h["name"])
+        if r and r["status"] in ("SUCCESS", "FAILED"):
+            cache[f"{tree}:{h['fq']}:{h['reach']}:{h['timeout']}"] = r
+    save_cache(cache, tree)
     for h in hs:
         if h["name"] not in results:
             results[h["name"]] = {"harness": h["name"], "status": "NOT_RUN", "failed_checks": [], "unsat_covers": [],
@@ -525,8 +616,8 @@ def main():
                                   "verification_s": 0.0, "functions": []}
     for n, r in results.items():
         if r["status"] in ("SUCCESS", "FAILED"):
-            times[n] = max(1.0, r["verification_s"])
-    json.dump(times, open(tf, "w"))
+            TIMES[n] = max(1.0, r["verification_s"])
+    json.dump(TIMES, open(os.path.join(WORK, "times.json"), "w"))
     verdicts = {h["name"]: classify(h, results[h["name"]], known) for h in hs}
     rc = 0
     nviol = 0
